@@ -222,7 +222,7 @@ def topo_family(tier):
                         continue
                     for k in range(1, n + 1):
                         for sens in itertools.combinations(range(1, n + 1), k):
-                            if (hash((es, sens)) % 7) and n == 4:
+                            if (hash((es, sens)) % 20) and n == 4:
                                 continue
                             fam.append(("enum_n%d_%d" % (n, len(fam)), n + 1, list(es), list(sens), 1, True))
     return fam
